@@ -77,32 +77,44 @@ func (r *RNG) RegProgram(o ProgOpts, gradients bool) []Call {
 
 // GradientSetup writes a (mostly valid) gradient into registers by hand: stops at CBASE/NBASE,
 // matrix in NREG[NBASE-6..-1], gradient colour into CREG[CSEL].
-func (r *RNG) GradientSetup() []Call {
+func (r *RNG) GradientSetup() []Call { return r.GradientSetupOpt(true) }
+
+// GradientSetupOpt: with lazy set, writes of zero values are sometimes omitted (relying on the number
+// registers being zero after Reset).
+func (r *RNG) GradientSetupOpt(lazy bool) []Call {
 	cBase, nBase := uint8(r.Intn(64)), uint8(r.Intn(64))
+	if r.Chance(60) {
+		// a few favourite bases, so that consecutive graphics reuse the same registers
+		cBase, nBase = []uint8{10, 0, 62, 33}[r.Intn(4)], []uint8{10, 3, 63, 6}[r.Intn(4)]
+	}
 	nStops := 2 + r.Intn(5)
 	if r.Chance(10) {
 		nStops = r.Intn(64)
 	}
 	var cs []Call
 	cs = append(cs, Call{Name: "csel", U8: cBase}, Call{Name: "nsel", U8: nBase})
-	off := float32(0)
+	// mostly valid stops: strictly increasing offsets in [0,1]; a few deliberately invalid ones
+	denom := float32(maxInt(nStops-1, 1))
+	lo := float32(0)
+	if r.Chance(30) {
+		lo = float32(r.Intn(30)) / 100
+	}
 	for i := 0; i < nStops; i++ {
 		c := r.Premul()
-		if r.Chance(3) {
+		if r.Chance(2) {
 			c = r.RGBAAny()
 		}
-		step := float32(r.Intn(40)+1) / 100
-		if i == 0 && r.Bool() {
-			step = 0
+		o := lo + (1-lo)*float32(i)/denom
+		if nStops > 1 && i > 0 && i < nStops-1 && r.Chance(50) {
+			o += (1 - lo) / denom * float32(r.Intn(40)-20) / 100
 		}
-		off += step
-		o := off
-		if o > 1 && r.Chance(90) {
-			o = 1
-			off = 1
-		}
-		if r.Chance(3) {
+		if r.Chance(2) {
 			o = r.F32()
+		}
+		if lazy && o == 0 && i == 0 && r.Chance(40) {
+			// rely on NREG being zero after Reset: only advance the selector
+			cs = append(cs, Call{Name: "creg", Adj: 0, Incr: true, Col: ivg.RGBAColor(c)}, Call{Name: "nsel", U8: nBase + 1})
+			continue
 		}
 		cs = append(cs, Call{Name: "creg", Adj: 0, Incr: true, Col: ivg.RGBAColor(c)}, Call{Name: "nreg", Adj: 0, Incr: true, F: fl(o)})
 	}
@@ -112,9 +124,19 @@ func (r *RNG) GradientSetup() []Call {
 		if r.Chance(30) {
 			v = float32(r.Intn(20)-10) / 640
 		}
+		if r.Chance(30) {
+			v = 0
+			if lazy && r.Bool() {
+				continue // rely on the number registers being zero after Reset
+			}
+		}
 		cs = append(cs, Call{Name: "nreg", Adj: uint8(i), F: fl(v)})
 	}
 	sel := uint8(r.Intn(64))
+	if r.Chance(90) {
+		// keep the gradient colour itself out of the stop registers
+		sel = (cBase + uint8(nStops) + uint8(r.Intn(maxInt(64-nStops, 1)))) & 0x3f
+	}
 	cs = append(cs, Call{Name: "csel", U8: sel})
 	g := ivg.EncodeGradient(cBase, nBase, uint8(r.Intn(2)), uint8(r.Intn(4)), uint8(nStops))
 	cs = append(cs, Call{Name: "creg", Adj: 0, Col: ivg.RGBAColor(g)})
@@ -301,6 +323,15 @@ func suiteC02(s *Shard, n int) {
 	_, corpus := Corpus(s.Repo)
 	for i := 0; i < n; i++ {
 		src := s.R.AnyBytes(corpus)
+		if i%8 == 7 {
+			// a structured graphic with hand-made gradients at arbitrary register bases
+			if b, err := EncodeCalls(s.R.RegProgram(ProgOpts{MaxPaths: 3, Arcs: true}, true), s.R.Bool()); err == nil {
+				src = b
+				if s.R.Chance(30) {
+					src = s.R.Mutate(src, nil)
+				}
+			}
+		}
 		line := DecCase(nil, src)
 		obs := s.EmitRun(line)
 		s.Sig("dec:" + obsSig(obs))
@@ -395,6 +426,7 @@ func suiteC03(s *Shard, n int) {
 					}
 					// cut so that the instruction is followed by a clean end in most cases
 					obs := s.EmitRun(DecCase(nil, src))
+					s.EmitRun(SpecCase(src))
 					s.Sig("op:" + fmt.Sprint(mode, op, w) + obsSig(obs))
 					s.Count("exhaustive-opcode")
 				}
@@ -414,6 +446,7 @@ func suiteC03(s *Shard, n int) {
 			}
 		}
 		obs := s.EmitRun(DecCase(nil, src))
+		s.EmitRun(SpecCase(src))
 		s.Sig("dec:" + obsSig(obs))
 		s.Count("stream")
 	}
@@ -701,6 +734,12 @@ func suiteC10(s *Shard, n int) {
 			o.Malformed = 0
 		}
 		ops := r.Program(o)
+		if r.Chance(25) {
+			// an earlier history (possibly erroneous or left mid-path with a pending run), then Reset and a program
+			a := r.Program(ProgOpts{Wild: r.Chance(20), Arcs: true, Reset: 2, MaxPaths: 2, MaxRun: 4, Histories: true, Malformed: 5, OpenEnd: 70})
+			b := r.Program(ProgOpts{Arcs: true, Reset: 1, MaxPaths: 2, MaxRun: 5, Histories: r.Bool()})
+			ops = append(a, b...)
+		}
 		line := EncCase(ops)
 		obs := s.EmitRun(line)
 		s.Sig("h:" + progSig(ops) + fmt.Sprint(strings.Contains(obs, "E=")))
@@ -1100,6 +1139,10 @@ func suiteC04(s *Shard, n int) {
 	for i := 0; i < n; i++ {
 		o := ProgOpts{MaxPaths: 4, Arcs: false}
 		cs := r.RegProgram(o, true)
+		if r.Chance(30) {
+			// the same Renderer decodes two graphics in a row: the machine starts afresh at the second Reset
+			cs = append(r.RegProgram(ProgOpts{MaxPaths: 2}, true), cs...)
+		}
 		rect := r.Rect()
 		smp := r.SamplePoints(rect)
 		s.emitRen(rect, smp, cs)
@@ -1188,12 +1231,26 @@ func suiteC15(s *Shard, n int) {
 			}
 		}
 		cs := []Call{{Name: "reset", VB: vb, Pal: ivg.DefaultPalette}}
-		cs = append(cs, r.GradientSetup()...)
+		grid := r.Chance(35)
+		if grid {
+			cs = gridGradient(r)
+			vb = cs[0].VB
+		} else {
+			cs = append(cs, r.GradientSetup()...)
+		}
 		cs = append(cs, Call{Name: "start", F: fl(vb.MinX, vb.MinY)}, Call{Name: "L", F: fl(vb.MaxX, vb.MinY)}, Call{Name: "L", F: fl(vb.MaxX, vb.MaxY)}, Call{Name: "L", F: fl(vb.MinX, vb.MaxY)}, Call{Name: "Z"})
 		rect := r.Rect()
 		var smp []image.Point
 		for k := 0; k < 12; k++ {
 			smp = append(smp, image.Pt(r.Intn(rect.Dx()*3)-rect.Dx(), r.Intn(rect.Dy()*3)-rect.Dy()))
+		}
+		if grid {
+			// scale exactly 1: pixel px has offset px/8 (see gridGradient): integers and stop offsets are hit exactly
+			rect = image.Rect(0, 0, 32, 32)
+			smp = smp[:0]
+			for k := 0; k < 14; k++ {
+				smp = append(smp, image.Pt((r.Intn(13)-4)*[]int{8, 4, 2, 1}[r.Intn(4)], 0))
+			}
 		}
 		s.emitRen(rect, smp, cs)
 		line := RenCase(rect, smp, cs)
@@ -1201,6 +1258,32 @@ func suiteC15(s *Shard, n int) {
 			s.Fail(f.Clause, f.Case, f.Detail)
 		}
 	}
+}
+
+// gridGradient: viewBox (0,0)-(32,32) rendered at 32x32 (scale exactly 1) with matrix a=1/8, c=-1/16, so
+// that the pixel centre px+0.5 has gradient x exactly px/8; stops at multiples of 1/4. Radial: gy = 0 on row 0.
+func gridGradient(r *RNG) []Call {
+	vb := ivg.ViewBox{MinX: 0, MinY: 0, MaxX: 32, MaxY: 32}
+	cs := []Call{{Name: "reset", VB: vb, Pal: ivg.DefaultPalette}}
+	nStops := 2 + r.Intn(4)
+	offs := [][]float32{{0, 1}, {0, 0.5, 1}, {0.25, 0.5, 0.75, 1}, {0, 0.25, 0.5, 0.75, 1}, {0.25, 0.75}}[r.Intn(5)]
+	nStops = len(offs)
+	cs = append(cs, Call{Name: "csel", U8: 10}, Call{Name: "nsel", U8: 10})
+	for _, o := range offs {
+		cs = append(cs, Call{Name: "creg", Incr: true, Col: ivg.RGBAColor(r.Premul())}, Call{Name: "nreg", Incr: true, F: fl(o)})
+	}
+	cs = append(cs, Call{Name: "nsel", U8: 10})
+	shape := uint8(r.Intn(2))
+	m := []float32{0.125, 0, -0.0625, 0, 0.125, -0.0625} // a b c d e f
+	if r.Bool() {
+		m[0], m[2] = -0.125, 0.0625 // mirrored: offsets -px/8
+	}
+	for i := 0; i < 6; i++ {
+		cs = append(cs, Call{Name: "nreg", Adj: uint8(6 - i), F: fl(m[i])})
+	}
+	cs = append(cs, Call{Name: "csel", U8: 0})
+	cs = append(cs, Call{Name: "creg", Col: ivg.RGBAColor(ivg.EncodeGradient(10, 10, shape, uint8(r.Intn(4)), uint8(nStops)))})
+	return cs
 }
 
 func suiteC17(s *Shard, n int) {
@@ -1238,6 +1321,12 @@ func suiteC17(s *Shard, n int) {
 			// Renderer reuse across decodes
 			srcA := r.AnyBytes(corpus)
 			callsA, _, _ := Decode(nil, srcA)
+			if r.Bool() {
+				callsA = r.RegProgram(ProgOpts{MaxPaths: 2, Arcs: true}, true)
+				if r.Chance(40) && len(callsA) > 3 {
+					callsA = callsA[:len(callsA)-1-r.Intn(3)] // left mid-path
+				}
+			}
 			b := r.RegProgram(ProgOpts{MaxPaths: 3, Arcs: true}, true)
 			rect := r.Rect()
 			ab := append(append([]Call{}, callsA...), b...)
@@ -1305,8 +1394,10 @@ func (r *RNG) GradHelper() GenOp {
 	switch r.Intn(12) {
 	case 0:
 		n = r.Intn(300)
-	case 1:
-		n = 56 + r.Intn(5)
+	case 1, 2:
+		n = 53 + r.Intn(8)
+	case 3:
+		n = r.Intn(3)
 	}
 	var stops []generate.GradientStop
 	for i := 0; i < n; i++ {
@@ -1470,8 +1561,14 @@ func suiteC19(s *Shard, n int) {
 		var ops []GenOp
 		ops = append(ops, GenOp{Kind: "call", Call: Call{Name: "reset", VB: ivg.DefaultViewBox, Pal: ivg.DefaultPalette}})
 		// reach an arbitrary selector state by plain or incrementing writes
-		ops = append(ops, GenOp{Kind: "call", Call: Call{Name: "csel", U8: uint8(r.Intn(64))}}, GenOp{Kind: "call", Call: Call{Name: "nsel", U8: uint8(r.Intn(64))}})
-		for k := r.Intn(20); k > 0; k-- {
+		cs0, ns0 := uint8(r.Intn(64)), uint8(r.Intn(64))
+		if r.Chance(50) {
+			// around the stop range [10, 10+n) and where it wraps past 63
+			cs0 = []uint8{0, 1, 2, 3, 4, 5, 8, 9, 10, 11, 12, 13, 14, 15, 60, 61, 62, 63}[r.Intn(18)]
+			ns0 = []uint8{0, 3, 4, 9, 10, 11, 16, 63}[r.Intn(8)]
+		}
+		ops = append(ops, GenOp{Kind: "call", Call: Call{Name: "csel", U8: cs0}}, GenOp{Kind: "call", Call: Call{Name: "nsel", U8: ns0}})
+		for k := r.Intn(20) * r.Intn(2); k > 0; k-- {
 			if r.Bool() {
 				ops = append(ops, GenOp{Kind: "call", Call: Call{Name: "creg", Incr: true, Col: ivg.RGBAColor(r.Premul())}})
 			} else {
